@@ -43,6 +43,15 @@ func envInt(k string, def int) int {
 func verifRoot() string { return envOr("VERIF_ROOT", "/verif") }
 func tier() string      { return envOr("VERIF_TIER", "quick") }
 func thorough() bool    { return tier() == "thorough" }
+
+// sz scales a generated-size bound: the thorough tier explores paths with twice
+// the node budget of the quick tier.
+func sz(k int) int {
+	if thorough() {
+		return 2 * k
+	}
+	return k
+}
 func shard() int        { return envInt("VERIF_SHARD", 0) }
 func nshards() int      { return max(1, envInt("VERIF_NSHARDS", 1)) }
 
